@@ -42,7 +42,7 @@ theorem step_open (s : Sc) (b : Byte) (hb : s.brk = false) (hq : s.quote = 0) (h
   have hns := not_isspace_of_quote b h
   have hne : b ≠ s.quote := by rw [hq]; exact quote_ne_zero b h
   unfold scanStep scanBody
-  rw [if_neg (by rw [hb]; decide), if_neg (fun c => hns c.1), if_neg hne, if_pos hp, if_pos (show b = 39 ∨ b = 34 from h)]
+  rw [if_neg (by rw [hb]; decide), if_neg (fun c => hns c.1), if_neg hne, if_pos hp, if_pos (show s.quote = 0 ∧ (b = 39 ∨ b = 34) from ⟨hq, h⟩)]
 
 theorem step_close (s : Sc) (b : Byte) (hb : s.brk = false) (hq : b = s.quote) (hnz : b ≠ 0) :
     scanStep s b = { s with out := s.out ++ [0], prev := 0, quote := 0 } := by
@@ -50,11 +50,11 @@ theorem step_close (s : Sc) (b : Byte) (hb : s.brk = false) (hq : b = s.quote) (
   rw [if_neg (by rw [hb]; decide), if_neg (fun c => hnz (hq.trans c.2)), if_pos hq]
 
 theorem step_start (s : Sc) (b : Byte) (hb : s.brk = false) (h1 : ¬ (isspace b = true ∧ s.quote = 0))
-    (h2 : b ≠ s.quote) (hp : s.prev = 0) (h4 : ¬ isQuote b) :
+    (h2 : b ≠ s.quote) (hp : s.prev = 0) (h4 : ¬ (s.quote = 0 ∧ isQuote b)) :
     scanStep s b = { s with out := s.out ++ [b], prev := b, argv := s.argv.set s.argc (some s.out.length),
                             argc := s.argc + 1, brk := decide (s.argc + 1 ≥ argvLen) } := by
   unfold scanStep scanBody
-  rw [if_neg (by rw [hb]; decide), if_neg h1, if_neg h2, if_pos hp, if_neg (show ¬ (b = 39 ∨ b = 34) from h4)]
+  rw [if_neg (by rw [hb]; decide), if_neg h1, if_neg h2, if_pos hp, if_neg (show ¬ (s.quote = 0 ∧ (b = 39 ∨ b = 34)) from h4)]
 
 /-! ### segments -/
 
@@ -105,7 +105,7 @@ theorem scan_word (w : List Byte) (s : Sc) (hb : s.brk = false) (hq : s.quote = 
   | cons c w' =>
     obtain ⟨hc1, hc2⟩ := hall c (List.mem_cons_self ..)
     have hcnz : c ≠ 0 := nz_of_printable c hc1
-    rw [scan_cons, step_start s c hb (fun x => not_isspace_of_printable c hc1 x.1) (by rw [hq]; exact hcnz) hp hc2]
+    rw [scan_cons, step_start s c hb (fun x => not_isspace_of_printable c hc1 x.1) (by rw [hq]; exact hcnz) hp (fun x => hc2 x.2)]
     have hd : decide (s.argc + 1 ≥ argvLen) = false := decide_eq_false (show ¬ (s.argc + 1 ≥ argvLen) by omega)
     rw [hd]
     obtain ⟨a, ap⟩ := scan_copy w' { s with out := s.out ++ [c], prev := c, argv := s.argv.set s.argc (some s.out.length), argc := s.argc + 1, brk := false } rfl hcnz (by
@@ -126,16 +126,15 @@ theorem scan_word_last (w rest : List Byte) (s : Sc) (hb : s.brk = false) (hq : 
   | cons c w' =>
     obtain ⟨hc1, hc2⟩ := hall c (List.mem_cons_self ..)
     have hcnz : c ≠ 0 := nz_of_printable c hc1
-    rw [List.cons_append, scan_cons, step_start s c hb (fun x => not_isspace_of_printable c hc1 x.1) (by rw [hq]; exact hcnz) hp hc2]
+    rw [List.cons_append, scan_cons, step_start s c hb (fun x => not_isspace_of_printable c hc1 x.1) (by rw [hq]; exact hcnz) hp (fun x => hc2 x.2)]
     have hd : decide (s.argc + 1 ≥ argvLen) = true := decide_eq_true hc
     rw [hd]
     obtain ⟨a1, a2, a3, a4, a5⟩ := scan_brk (w' ++ rest) { s with out := s.out ++ [c], prev := c, argv := s.argv.set s.argc (some s.out.length), argc := s.argc + 1, brk := true } rfl
     exact ⟨by rw [a1]; simp, by rw [a2]; exact hq, a3, a4, a5⟩
 
-/-- a quoted string (not the fourth token) whose first character is not a quote character -/
+/-- a quoted string (not the fourth token); it may start with the other quote character (fix 15aaa9d) -/
 theorem scan_quoted (q : Byte) (str : List Byte) (s : Sc) (hb : s.brk = false) (hq : s.quote = 0) (hp : s.prev = 0)
-    (hqq : isQuote q) (hne : str ≠ []) (hall : ∀ b ∈ str, b ≠ 0 ∧ b ≠ q)
-    (hnest : ∀ b, str.head? = some b → ¬ isQuote b) (hc : s.argc + 1 < argvLen) :
+    (hqq : isQuote q) (hne : str ≠ []) (hall : ∀ b ∈ str, b ≠ 0 ∧ b ≠ q) (hc : s.argc + 1 < argvLen) :
     After s (scan s (q :: str ++ [q])) (0 :: str ++ [0]) 0 (s.argc + 1) (s.argv.set s.argc (some (s.out.length + 1))) false ∧
     (scan s (q :: str ++ [q])).prev = 0 := by
   have hqnz : q ≠ 0 := quote_ne_zero q hqq
@@ -143,9 +142,8 @@ theorem scan_quoted (q : Byte) (str : List Byte) (s : Sc) (hb : s.brk = false) (
   | nil => exact absurd rfl hne
   | cons c str' =>
     obtain ⟨hc1, hc2⟩ := hall c (List.mem_cons_self ..)
-    have hcq := hnest c rfl
     rw [List.cons_append, scan_cons, step_open s q hb hq hp hqq]
-    rw [List.cons_append, scan_cons, step_start { s with out := s.out ++ [0], prev := 0, quote := q } c hb (fun x => hqnz x.2) hc2 rfl hcq]
+    rw [List.cons_append, scan_cons, step_start { s with out := s.out ++ [0], prev := 0, quote := q } c hb (fun x => hqnz x.2) hc2 rfl (fun x => hqnz x.1)]
     have hd : decide (s.argc + 1 ≥ argvLen) = false := decide_eq_false (show ¬ (s.argc + 1 ≥ argvLen) by omega)
     simp only [hd]
     rw [scan_append]
